@@ -144,3 +144,10 @@ Definition ex_close_stuck_prefix : list op :=
    OBorrow 1 3 13 false 6 1000000000 4 1000000000 bi0 bi0;
    OSetPrice 2 (Some 600000); OHandOver 1 1 0].
 Definition ex_close_stuck : op := OAucClose 1 1050000000 1 0.
+(* finding C08-F4: the generation-1 hand-over message (x/liquidation MsgLiquidateBorrow) on the same position: 333 333 333
+   coins of collateral go to the generation-1 auction, 15 873 015 to the reserve, 349 206 349 are deducted; the position is
+   flagged, its principal 900 000 stays in the published total borrowed *)
+Definition ex_v1_prefix : list op :=
+  [OLend 2 3 3 1000000000 1 1 0; OLend 1 2 2 2000000000 1 1 0;
+   OBorrow 1 2 4 false 6 1000000000 3 900000 bi0 bi0; OSetPrice 2 (Some 700000)].
+Definition ex_v1_handover : op := OHandOverV1 1 1 0 333333333 15873015 349206349.
